@@ -2,7 +2,8 @@
    (version gates, a string, a nullable string, a duration, a collection of 2-field structs, a tagged-field
    marker), and the unguarded witness of C10. *)
 From Coq Require Import String List ZArith Bool Lia.
-From SV Require Import WireFmt.Format WireFmt.ProofsPrim WireFmt.Proofs WireFmt.ProofsPair WireFmt.ProofsSafe.
+From SV Require Import WireFmt.Format WireFmt.ProofsPrim WireFmt.Proofs WireFmt.ProofsPair WireFmt.ProofsSafe
+  WireFmt.ProofsReenc.
 Import ListNotations.
 Open Scope Z_scope.
 
@@ -82,6 +83,50 @@ Proof. vm_compute. reflexivity. Qed.
 (* the constants differ, so merge does not reproduce the encoder's bytes although the pair mirrors *)
 Example ex_merge_const : enc_real (paired 2 ex_fd ex_fe) 2 ex_x <> enc_real ex_fe 2 ex_x.
 Proof. vm_compute. discriminate. Qed.
+
+(* ------------------------------------------------------------------ 3. re-encoding *)
+Example ex_reenc_hyps : reenc_ok ex_fe 2 ex_x0 = true /\ reenc_ok (paired 2 ex_fd ex_fe) 2 ex_x0 = true.
+Proof. vm_compute. split; reflexivity. Qed.
+
+Example ex_reencode : enc_real ex_fe 2 (upd ex_fe 2 ex_x0 ex_x) = enc_real ex_fe 2 ex_x.
+Proof. apply reencode. exact (proj1 ex_reenc_hyps). Qed.
+
+Example ex_pair_reencode : enc_real ex_fe 2 (upd (paired 2 ex_fd ex_fe) 2 ex_x0 ex_x) = enc_real ex_fe 2 ex_x.
+Proof. apply pair_reencode; [exact (proj1 ex_pair_hyps)|exact (proj2 ex_reenc_hyps)]. Qed.
+
+(* each side condition of reenc_ok is needed: a well-formed format, a well-typed value, and different bytes *)
+(* overlapping paths: a later atom overwrites what an earlier one decoded *)
+Example reenc_needs_disjoint :
+  let f := FSeq (FPrim PI8 CId [0%nat]) (FSetConst [0%nat] 5) in
+  let x := VStruct [VInt 1] in let x0 := VStruct [VInt 0] in
+  wf f 0 = true /\ wt f 0 x = true /\ reenc_ok f 0 x0 = false /\
+  enc_real f 0 (upd f 0 x0 x) <> enc_real f 0 x.
+Proof. vm_compute. repeat split; try reflexivity. discriminate. Qed.
+
+(* a path that is not valid in x0: the decoded field is lost *)
+Example reenc_needs_path_ok :
+  let f := FPrim PI8 CId [0%nat] in let x := VStruct [VInt 1] in let x0 := VInt 0 in
+  wf f 0 = true /\ wt f 0 x = true /\ reenc_ok f 0 x0 = false /\
+  enc_real f 0 (upd f 0 x0 x) <> enc_real f 0 x.
+Proof. vm_compute. repeat split; try reflexivity. discriminate. Qed.
+
+(* the decoder keeps the field on count 0 but x0 holds a non-empty collection *)
+Example reenc_needs_nil_where_kept :
+  let k := Build_akind ELI32 ENone DLArr BKeep BNil BNil 0 false in
+  let f := FArr "a" k [0%nat] (VInt 0) (FPrim PI8 CId []) in
+  let x := VStruct [VList None] in let x0 := VStruct [VList (Some [VInt 3])] in
+  wf f 0 = true /\ wt f 0 x = true /\ reenc_ok f 0 x0 = false /\
+  enc_real f 0 (upd f 0 x0 x) <> enc_real f 0 x.
+Proof. vm_compute. repeat split; try reflexivity. discriminate. Qed.
+
+(* the encoder tells nil from empty, the decoder turns count 0 into nil *)
+Example reenc_needs_nilnull :
+  let k := Build_akind ELI32 ENilNull DLArr BNil BNil BNil 0 false in
+  let f := FArr "a" k [0%nat] (VInt 0) (FPrim PI8 CId []) in
+  let x := VStruct [VList (Some [])] in let x0 := VStruct [VList None] in
+  wf f 0 = true /\ wt f 0 x = true /\ reenc_ok f 0 x0 = false /\
+  enc_real f 0 (upd f 0 x0 x) <> enc_real f 0 x.
+Proof. vm_compute. repeat split; try reflexivity. discriminate. Qed.
 
 (* ------------------------------------------------------------------ 5. safety *)
 Definition ex_bs : list Z := [0; 1; 0; 2; 104; 105; 255; 255; 127; 255; 255; 255].
